@@ -45,7 +45,7 @@ pub fn generate(rng: &mut Rng, seed: u64, run: u64, max_len: usize) -> Trace {
         vec![]
     } else {
         let out_len = if strips(mode) {
-            anstream::adapter::strip_bytes(&wl.bytes).into_vec().len()
+            catch(|| anstream::adapter::strip_bytes(&wl.bytes).into_vec().len()).unwrap_or(wl.bytes.len())
         } else {
             wl.bytes.len()
         };
